@@ -184,7 +184,7 @@ def run_driver_parallel(driver, outdir, seed0, runs, nproc, args, deadline=600):
                 raise ToolError(f"driver produced no results: {' '.join(cmd)}\n{r.stdout[-2000:]}")
             res = json.load(open(res_path))
             records += res["runs"]
-            if res.get("aborted") and driver in ("sched", "live"):
+            if res.get("aborted") and driver in ("sched", "live", "fault"):
                 left = 0
             elif res.get("aborted"):
                 # a hang: the process dumped what it had and exited; continue after that seed
